@@ -157,9 +157,9 @@ impl Property for C06 {
         vec![
             ("real-json".into(), crate::corpus::model_json_files().len() as u64),
             ("real-converted".into(), real_project_files().len() as u64),
-            ("generated".into(), tier.pick(400, 20_000)),
-            ("monotone".into(), tier.pick(150, 6000)),
-            ("missing".into(), tier.pick(100, 4000)),
+            ("generated".into(), tier.pick(1200, 20_000)),
+            ("monotone".into(), tier.pick(450, 6000)),
+            ("missing".into(), tier.pick(300, 4000)),
         ]
     }
     fn required(&self, tier: Tier) -> Vec<(String, u64)> {
